@@ -201,8 +201,20 @@ func (m *Model) runOpTableRest(s *Sink, rule string) {
 				}
 			}
 		}
+		// decided by case evaluation where possible (operand with a named payload; rule_opcases.go); the structural
+		// reading above is the fallback
+		pbad, pdec, _ := m.postfixCases()
 		for _, w := range []string{"++int", "++float", "--int", "--float"} {
 			key := fnKey(fn) + "|postfix " + w[:2] + " on " + w[2:]
+			ck := map[string]string{"int": "INTEGER", "float": "FLOAT"}[w[2:]] + " " + w[:2]
+			if pdec {
+				if pbad[ck] == "" {
+					s.OK(rule, key, m.Pos(fn.Pos()), "case evaluation: a new object holding the payload %s 1", map[string]string{"++": "+", "--": "-"}[w[:2]])
+				} else {
+					s.Violation(rule, key, m.Pos(fn.Pos()), "postfix %s on %s: %s", w[:2], w[2:], pbad[ck])
+				}
+				continue
+			}
 			if got[w] {
 				s.OK(rule, key, m.Pos(fn.Pos()), "payload %s 1", map[string]string{"++": "+", "--": "-"}[w[:2]])
 			} else {
